@@ -1089,6 +1089,102 @@ def check_swallow_granularity(ctx, u, methods):
         ctx.ok(R, 'no-swallowing-try', 'Image.cc', 'no try block swallows a pixel-access exception', nontrivial=False)
 
 
+
+def check_default_extent_by_evaluation(ctx, u, methods):
+    """C07-R10: the statements a blit variant runs before clamp_blit_dimensions (the "negative extent means the
+    whole source" default) followed by the clamp, folded on a grid that includes negative extents and negative
+    source origins: the area left must be the per-pixel model's (extent < 0 -> the source's full extent)."""
+    from peval import PEval, Ptr, Thrown, Undecided, Fault
+    R = 'C07-R10'
+    PE = PEval([u])
+    Undec_ = PE.new_object('phosg::Image')   # stand-in for parameters the default must not read
+    cl = [f for f in u.functions if f.get('name') == 'clamp_blit_dimensions' and body_of(f) is not None]
+    ctx.need(len(cl) == 1, 'clamp_blit_dimensions not found')
+    n_fn = 0
+    for f in methods:
+        body = body_of(f)
+        if body is None:
+            continue
+        top = stmts_of(body)
+        idx = next((i for i, s_ in enumerate(top) if strip(s_).get('kind') == 'CallExpr' and call_name(strip(s_)) == 'clamp_blit_dimensions'), None)
+        if idx is None:
+            continue
+        clamp = strip(top[idx])
+        ca = call_args(clamp)
+        ps = params_of(f)
+        names = [p_.get('name') for p_ in ps]
+        key = '%s@%s' % (f.get('name'), (f.get('loc') or {}).get('line', (f.get('range', {}).get('begin') or {}).get('line', '?')))
+        ids = []
+        for a in ca[2:]:
+            a0 = strip(a)
+            rd = ref_decl(a0['inner'][0]) if a0.get('kind') == 'UnaryOperator' and a0.get('opcode') == '&' else None
+            ids.append(rd['id'] if rd else None)
+        if len(ca) != 8 or None in ids or canon(ca[0]) not in ('*this', 'this') or not all(k_ in names for k_ in ('source', 'x', 'y', 'w', 'h', 'sx', 'sy')):
+            ctx.undecided(R, key + '|default-extent', f, 'the clamp call is not clamp_blit_dimensions(*this, source, &x, &y, &w, &h, &sx, &sy) on the parameters')
+            continue
+        if [p_['id'] for p_ in ps if p_.get('name') in ('x', 'y', 'w', 'h', 'sx', 'sy')] != ids:
+            ctx.undecided(R, key + '|default-extent', f, 'the clamp call does not take the six parameters in order')
+            continue
+        n_fn += 1
+        bad = und = None
+        n = 0
+        for vertical in (False, True):
+            for D in (1, 3):
+                for S in (1, 3):
+                    for x in (-2, 0, 1):
+                        for sx in (-2, -1, 0, 1, 2):
+                            for w in (-1, -5, 2):
+                                if bad or und:
+                                    continue
+                                dest, src = PE.new_object('phosg::Image'), PE.new_object('phosg::Image')
+                                if dest is None or src is None:
+                                    und = 'Image object model'
+                                    continue
+                                dest.f.update({'width': 2 if vertical else D, 'height': D if vertical else 2})
+                                src.f.update({'width': 2 if vertical else S, 'height': S if vertical else 2})
+                                # the other axis: negative extent too, origin 0 -> the model copies its 2 pixels
+                                v = {'x': 0 if vertical else x, 'y': x if vertical else 0, 'w': -1 if vertical else w, 'h': w if vertical else -1,
+                                     'sx': 0 if vertical else sx, 'sy': sx if vertical else 0, 'source': src}
+                                try:
+                                    vals = [v.get(nm, 0 if 'int' in (qtype(p_) or '') or 'size_t' in (qtype(p_) or '') else None) for nm, p_ in zip(names, ps)]
+                                    if any(val is None for val in vals):
+                                        # a non-integer extra parameter (a mask image, a callback): the prologue must not depend on it
+                                        vals = [Undec_ if val is None else val for val in vals]
+                                    frame = PE.bind(ps, vals, {}, 0, True)
+                                    frame['__this__'] = dest
+                                    PE.run(top[:idx], frame, 0)
+                                    PE.call_with(cl[0], [dest, src] + [Ptr(frame, i_, 'long') for i_ in ids])
+                                    g = {k_: PE.lookup(frame, i_) for k_, i_ in zip(('x', 'y', 'w', 'h', 'sx', 'sy'), ids)}
+                                except Thrown as e_:
+                                    bad = 'throws %s' % e_.etype
+                                    continue
+                                except Fault as e_:
+                                    bad = 'faults (%s)' % e_
+                                    continue
+                                except (Undecided, KeyError) as e_:
+                                    und = str(e_)
+                                    continue
+                                if not all(isinstance(t_, int) for t_ in g.values()):
+                                    und = 'non-constant result'
+                                    continue
+                                n += 1
+                                a_, e_, so_ = ('y', 'h', 'sy') if vertical else ('x', 'w', 'sx')
+                                oa_, oe_, oso_ = ('x', 'w', 'sx') if vertical else ('y', 'h', 'sy')
+                                got = {(g[a_] + i, g[so_] + i) for i in range(max(g[e_], 0))} if g[oe_] > 0 else set()
+                                got_o = {(g[oa_] + i, g[oso_] + i) for i in range(max(g[oe_], 0))}
+                                ext = S if w < 0 else w
+                                want = {(x + i, sx + i) for i in range(ext) if 0 <= x + i < D and 0 <= sx + i < S}
+                                if (got and got_o != {(0, 0), (1, 1)}) or got != want:
+                                    bad = '%s axis, dest size %d, source size %d, origin %d, extent %d%s, source origin %d: after the default and the clamp the copy covers %s (other axis %s); the per-pixel model gives %s' % (
+                                        'vertical' if vertical else 'horizontal', D, S, x, w, ' (negative: whole source)' if w < 0 else '', sx, sorted(got), sorted(got_o), sorted(want))
+        if und:
+            ctx.undecided(R, key + '|default-extent', f, 'the statements before the clamp could not be folded (%s)' % und)
+        elif bad:
+            ctx.bad(R, key + '|default-extent', top[0] if idx else clamp, bad)
+        else:
+            ctx.ok(R, key + '|default-extent', f, 'default extent + clamp folded on %d (axis, sizes, origin, extent incl. negative, source origin incl. negative) combinations: the area is the per-pixel model\'s' % n)
+    ctx.need(n_fn >= 8, 'fewer than 8 blit variants with a clamp prologue found (%d)' % n_fn)
+
 def run(ctx):
     ctx.rule('C07-R1', 'raw pixel-buffer access (data.raw / data.asN) occurs only in the owner functions; every drawing / blit / transform function reaches pixels through read_pixel/write_pixel', 8)
     ctx.rule('C07-R2', 'in read_pixel/write_pixel every subscript is dominated by the four-way coordinate test, is (y*width+x)*(alpha?4:3)+k with k=3 only under has_alpha, and uses the asN matching channel_width', 34)
@@ -1099,12 +1195,15 @@ def run(ctx):
     ctx.rule('C07-R8', 'clamp_blit_dimensions by evaluation (E-TABLE): folded on a grid of canvas sizes (0, 1, 3), origins and source origins (-3..4) and extents (-1..6) on each axis, the area it leaves is exactly the set of (dest, source) pixel pairs inside both canvases', 1)
     ctx.rule('C07-R9', 'culling: an early-out that compares a drawing position with a canvas edge covers the whole extent of the drawing calls it skips (clipping invariance of text cells and their background box)', 1)
     ctx.rule('C07-R7', 'clipping by catch is per pixel: a try block whose handler swallows the exception of an out-of-canvas pixel access contains one pixel access and no loop, so one clipped pixel never skips the pixels after it', 1)
+    ctx.rule('C07-R10', 'default extent by evaluation (E-TABLE): in every blit variant the statements before clamp_blit_dimensions (negative w / h means the whole source) plus the clamp, folded on a grid with negative extents and negative source origins, leave exactly the per-pixel model\'s area', 8)
     u = ctx.unit(repo_unit('Image.cc'))
     methods = image_methods(u)
     ctx.require(len(methods) >= 60, 'Image methods not found (%d)' % len(methods))
     check_confinement(ctx, u, methods)
     check_pixel_guard(ctx, u, methods)
     check_no_escape(ctx, u, methods)
+    with ctx.section('C07-R10', 'C07'):
+        check_default_extent_by_evaluation(ctx, u, methods)
     r8 = [False]
     with ctx.section('C07-R8', 'C07'):
         r8[0] = check_clamp_by_evaluation(ctx, u)
